@@ -292,6 +292,28 @@ Next ==
 
 Spec == Init /\ [][Next]_vars
 
+\* Liveness, checked by TLC under fairness (Rep_live.cfg, Respondent_live.cfg): the library's own steps and the peers
+\* taking what they are sent are weakly fair; requests arriving, connections coming and going, the application's calls,
+\* deadlines and Close are the environment's and are not.
+Fairness ==
+  /\ \A p \in Pipe : WF_vars(Push(p)) /\ WF_vars(Abandon(p)) /\ WF_vars(SenderTake(p)) /\ WF_vars(XmitStart(p)) /\ WF_vars(XmitEnd(p))
+  /\ \A t \in Thread : /\ WF_vars(\E res \in {"ok", "ErrClosed", "ErrSendTimeout"} : SendDone(t, res))
+                        /\ WF_vars(SendHandOver(t))
+                        \* (strong: a Recv that keeps running into its deadline and being called again while a request is
+                        \* available does not lose the race with its own timer every single time)
+                        /\ SF_vars((\E q \in Pipe : rxHold[q] # NULL /\ RecvTake(t, rxHold[q])) \/ (recvQ # <<>> /\ RecvTake(t, Head(recvQ))))
+                        /\ WF_vars(RecvFail(t, "ErrClosed"))
+FairSpec == Spec /\ Fairness
+\* C05 / C18: a reply that is waiting for room in its requester's queue gets through or is given up - the Send returns -
+\* as long as the peer takes what it is sent (a slow requester holds up its own replies only for as long as it is slow)
+SendReturns == \A t \in Thread : (call[t] # NULL /\ call[t].op = "send") ~> (call[t] = NULL)
+\* a reply that Send accepted reaches the transport of the connection it is for, or that connection has gone
+AcceptedReplySent == \A p \in Pipe : (sendQ[p] # <<>>) ~> (sendQ[p] = <<>> \/ pclosed[p])
+\* a request that has arrived is taken by a Recv that is waiting for one, unless nobody is waiting any more
+Available == IF Unbuf THEN \E q \in Pipe : rxHold[q] # NULL ELSE recvQ # <<>>
+SomeoneWaits == \E t \in Thread : call[t] # NULL /\ call[t].op = "recv"
+WaitingRecvServed == (Available /\ SomeoneWaits) ~> (~Available \/ ~SomeoneWaits)
+
 -----------------------------------------------------------------------------
 (* Properties (C05) *)
 Range(s) == {s[i] : i \in 1..Len(s)}
